@@ -1,5 +1,7 @@
 import Zstd.Proofs.FrameDecoderStandIn
+import Zstd.Proofs.DictParse
 import Zstd.Proofs.FrameFaithful
+import Zstd.Proofs.FrameDecoderToVec
 /-
 C10 — exact frame boundaries: consumption, multi-frame decoding, truncation detection.
 
@@ -274,6 +276,69 @@ theorem decodeAll_concat (segs : List Segment) (d : Decoder σ)
     ∃ d', d.decodeAll (totalBytes segs) room = (d', .ok (totalContent segs)) :=
   Decoder.decodeAll_concat segs d hv room hroom
 
+/-! ### `decode_all_to_vec`
+
+Model: `Decoder.decodeAllToVec` (resize to capacity, `decode_all` into the spare capacity, truncate back
+on BOTH paths); engine `dec` compares it with the real function (`dec allvec` lines: outcome, bytes
+appended, vector length, the bytes in front). -/
+
+/-- the call IS `decode_all` with the spare capacity as target: same decoder afterwards, same outcome -/
+theorem decode_all_to_vec_is_decode_all (d : Decoder σ) (s : Src) (vec : Array Nat) (room : Nat) :
+    (d.decodeAllToVec s vec room).1 = (d.decodeAll s room).1 ∧
+    (∀ e, (d.decodeAllToVec s vec room).2.2 = .err e ↔ (d.decodeAll s room).2 = .err e) ∧
+    ((d.decodeAllToVec s vec room).2.2 = .ok () ↔ ∃ out, (d.decodeAll s room).2 = .ok out) := by
+  rw [Decoder.decodeAllToVec_eq]
+  cases h : d.decodeAll s room with
+  | mk d' o => cases o <;> simp
+
+/-- "The length is not changed if an error occurs" — more: the vector is UNCHANGED on every failure
+(error or panic path), whatever was written into the spare capacity before the failure -/
+theorem decode_all_to_vec_unchanged_on_failure (d : Decoder σ) (s : Src) (vec : Array Nat) (room : Nat)
+    (h : (d.decodeAllToVec s vec room).2.2 ≠ .ok ()) : (d.decodeAllToVec s vec room).2.1 = vec := by
+  rw [Decoder.decodeAllToVec_eq] at h ⊢
+  cases hd : d.decodeAll s room with
+  | mk d' o => cases o <;> simp_all
+
+/-- the bytes already in the vector are never touched, on any path -/
+theorem decode_all_to_vec_prefix_untouched (d : Decoder σ) (s : Src) (vec : Array Nat) (room : Nat) :
+    (d.decodeAllToVec s vec room).2.1.extract 0 vec.size = vec := by
+  rw [Decoder.decodeAllToVec_eq]
+  cases hd : d.decodeAll s room with
+  | mk d' o => cases o <;> simp [Array.extract_append]
+
+/-- on success exactly the bytes `decode_all` reports are appended — never more than the spare
+capacity, so the vector is not reallocated and `min(len + n, cap)` never cuts anything off -/
+theorem decode_all_to_vec_appends_exactly (d : Decoder σ) (s : Src) (vec : Array Nat) (room : Nat)
+    (h : (d.decodeAllToVec s vec room).2.2 = .ok ()) :
+    ∃ d' out, d.decodeAll s room = (d', .ok out) ∧ out.size ≤ room ∧
+      d.decodeAllToVec s vec room = (d', vec ++ out, .ok ()) := by
+  rw [Decoder.decodeAllToVec_eq] at h ⊢
+  cases hd : d.decodeAll s room with
+  | mk d' o =>
+    rw [hd] at h
+    cases o with
+    | ok out => exact ⟨d', out, rfl, decode_all_within_target d d' s room out hd, rfl⟩
+    | err e => cases h
+    | fault f => cases h
+
+/-- `decodeAll_concat` through the vector front end: any list of valid frames and skippable frames,
+spare capacity at least the total content ⇒ `Ok`, and the vector is its old content followed by exactly
+the concatenated contents -/
+theorem decode_all_to_vec_concat (segs : List Segment) (d : Decoder σ) (vec : Array Nat)
+    (hv : ∀ sg ∈ segs, sg.Valid d.dicts d.maxWindow) (room : Nat) (hroom : (totalContent segs).size ≤ room) :
+    ∃ d', d.decodeAllToVec (totalBytes segs) vec room = (d', vec ++ totalContent segs, .ok ()) := by
+  obtain ⟨d', hd⟩ := Decoder.decodeAll_concat segs d hv room hroom
+  exact ⟨d', by rw [Decoder.decodeAllToVec_eq, hd]⟩
+
+/-- an undersized spare capacity fails (`decode_all` does: `target_too_small`) and leaves the vector as
+it was: no silent truncation through this front end either -/
+theorem decode_all_to_vec_no_silent_truncation (d : Decoder σ) (s : Src) (vec : Array Nat) (room : Nat) (e : DErr)
+    (h : (d.decodeAll s room).2 = .err e) :
+    (d.decodeAllToVec s vec room).2 = (vec, .err e) := by
+  rw [Decoder.decodeAllToVec_eq]
+  cases hd : d.decodeAll s room with
+  | mk d' o => rw [hd] at h; simp only at h; subst h; rfl
+
 /-! ### fuel: the loops terminate -/
 
 /-- `fuel_suffices`, `decode_blocks`: each iteration consumes ≥ 3 source bytes or returns, so any fuel
@@ -353,5 +418,30 @@ theorem valid_frame_prefix_errors_faithful (d : DecB) (sdicts : List Spec.Dict)
           (e = .blockHeaderRead ∨ e = .blockBodyRead ∨ e = .checksumRead) ∧ d''.isFinished = false ∧
           d''.bytesRead ≤ k ∧ ∃ tail, r.content = (d''.content ++ tail).toList) :=
   valid_frame_prefix_errors d sdicts hdc f hb r hs hlim k hk
+
+/-- non-vacuity of the `decode_all_to_vec` theorems on the executable instance: enough spare capacity —
+the content is appended behind `[1, 2]`; one byte short — `TargetTooSmall` and the vector as it was -/
+example : (({} : DecB).decodeAllToVec demoFrame #[1, 2] 3).2.1 = #[1, 2, 97, 98, 99] := by decide +kernel
+example : (({} : DecB).decodeAllToVec demoFrame #[1, 2] 2).2.1 = #[1, 2] ∧
+    (match (({} : DecB).decodeAllToVec demoFrame #[1, 2] 2).2.2 with | .err .targetTooSmall => true | _ => false) = true := by
+  decide +kernel
+
+
+/-- `valid_frame_prefix_errors` for decoders whose dictionaries were registered through `add_dict` of
+parsed bytes: no coupling hypothesis (`registerDicts_coupled`) -/
+theorem valid_frame_prefix_errors_parsed_dicts (raws : List (List Nat))
+    (hraws : ∀ raw ∈ raws, (∀ x ∈ raw, x < 256) ∧ (Spec.parseDict raw).isSome = true)
+    (f : List Nat) (hb : ∀ x ∈ f, x < 256) (r : Spec.FrameResult)
+    (hs : Spec.decodeFrame f (specRegisterDicts [] raws) = some r) (hlim : r.header.window ≤ ({} : DecB).maxWindow)
+    (k : Nat) (hk : k < r.consumed) :
+    ∃ d0 rest, (registerDicts {} raws).reset f = (d0, .ok rest) ∧
+      (d0.bytesRead ≤ k →
+        (registerDicts {} raws).reset (f.take k) = (d0, .ok (rest.take (k - d0.bytesRead))) ∧
+        ∃ d'' e, d0.decodeBlocks (rest.take (k - d0.bytesRead)) .all = (d'', .err e) ∧
+          (e = .blockHeaderRead ∨ e = .blockBodyRead ∨ e = .checksumRead) ∧ d''.isFinished = false ∧
+          d''.bytesRead ≤ k ∧ ∃ tail, r.content = (d''.content ++ tail).toList) := by
+  have hdc := registerDicts_coupled ({} : DecB) [] raws (fun raw h => (hraws raw h).1) (fun raw h => (hraws raw h).2) .nil
+  have hmw : (registerDicts ({} : DecB) raws).maxWindow = ({} : DecB).maxWindow := (registerDicts_state _ raws).2
+  exact valid_frame_prefix_errors _ _ hdc f hb r hs (by rw [hmw]; exact hlim) k hk
 
 end Zstd.Props.C10
